@@ -11,7 +11,7 @@ COQ_FN = "RunC13.run"
 COQ_CASE_TY = "RunC13.case"
 RULE = ("width in {8..256} x operator (12 binary incl. reflected, 4 unary, constructor from plain ints and from uint views of every width) x operand kind (same uint "
         "type, other-width uint, plain int) x operands from {0,1,2,3,2^k-1,2^k,2^k+1,max-1,max,random}; "
-        "non-trivial = binary operator whose mathematical result is within a factor 4 of the range limit or that "
+        "every case whose result is a uint is repeated with user-defined uint types of the same width (two subclasses per width, and byte) and must return exactly that class; non-trivial = binary operator whose mathematical result is within a factor 4 of the range limit or that "
         "raises; distinct by input JSON")
 NAMES = ["P:result_value_and_type"]
 UT = {8: uint8, 16: uint16, 32: uint32, 64: uint64, 128: uint128, 256: uint256}
@@ -80,6 +80,40 @@ def gen_inputs(ctx):
         yield {"t": "bin", "w": w, "op": op, "refl": refl, "a": a, "kind": kind, "w2": w2, "b": b}
 
 
+# "a value of the uint operand's OWN type": user-defined uint types of the same width (as Slot / Epoch are of uint64),
+# and byte next to uint8, must get results of their own class whatever other classes computed before
+from remerkleable.basic import byte as _byte
+SIBS = {w: [type("Slot%d" % w, (UT[w],), {}), type("Epoch%d" % w, (UT[w],), {})] for w in UT}
+SIBS[8].append(_byte)
+
+
+def own_type_violation(inp, w, expected):
+    """re-run the case with each sibling class; the result must have the same numeric value and exactly that class"""
+    for A in SIBS[w]:
+        try:
+            if inp["t"] == "ctor":
+                r = A(inp["x"])
+            elif inp["t"] == "un":
+                r = UNOPS[inp["op"]](A(inp["a"]))
+            else:
+                b = A(inp["b"]) if inp["kind"] == "same" else inp["b"]
+                f = OPS[inp["op"]]
+                r = f(b, A(inp["a"])) if inp["refl"] else f(A(inp["a"]), b)
+        except Exception as e:  # noqa
+            return "%s: raises %s for the %s operand where %s returns %d" % (describe(inp), type(e).__name__, A.__name__, UT[w].__name__, expected)
+        if type(r) is not A or int(r) != expected:
+            return "%s: with %s operands the result is %s(%d), expected %s(%d)" % (describe(inp), A.__name__, type(r).__name__, int(r), A.__name__, expected)
+    return None
+
+
+def describe(inp):
+    return " ".join("%s=%s" % (k, inp[k]) for k in ("t", "op", "refl", "a", "kind", "b", "x") if k in inp)
+
+
+def direct_violation(c):
+    return getattr(c, "why", None)
+
+
 def obs_of(w, f):
     try:
         r = f()
@@ -99,12 +133,18 @@ def build(inp):
         x = inp["x"]
         arg = UT[inp["xw"]](x) if "xw" in inp else x
         o = obs_of(w, lambda: T(arg))
-        return Case(inp, "(CCtor %s %s)" % (cZ(w), cZ(x)), [o], NAMES, nontrivial=True,
-                    kind="ctor" + (":from_uint" if "xw" in inp else ""))
+        c = Case(inp, "(CCtor %s %s)" % (cZ(w), cZ(x)), [o], NAMES, nontrivial=True,
+                 kind="ctor" + (":from_uint" if "xw" in inp else ""))
+        if isinstance(o, list) and o[1] == w and "xw" not in inp:
+            c.why = own_type_violation(inp, w, o[0])
+        return c
     if inp["t"] == "un":
         a = T(inp["a"])
         o = obs_of(w, lambda: UNOPS[inp["op"]](a))
-        return Case(inp, "(CUn %s %s %s)" % (cZ(w), inp["op"], cZ(inp["a"])), [o], NAMES, kind="un:" + inp["op"])
+        c = Case(inp, "(CUn %s %s %s)" % (cZ(w), inp["op"], cZ(inp["a"])), [o], NAMES, kind="un:" + inp["op"])
+        if isinstance(o, list) and o[1] == w:
+            c.why = own_type_violation(inp, w, o[0])
+        return c
     a = T(inp["a"])
     kind, b = inp["kind"], inp["b"]
     if kind == "same":
@@ -117,7 +157,10 @@ def build(inp):
     o = obs_of(w, (lambda: f(bv, a)) if inp["refl"] else (lambda: f(a, bv)))
     coq = "(CBin %s %s %s %s %s %s)" % (cZ(w), inp["op"], cbool(inp["refl"]), cZ(inp["a"]), ck, cZ(b))
     nontriv = isinstance(o, E) or (isinstance(o, list) and o[0] >= (1 << w) // 4)
-    return Case(inp, coq, [o], NAMES, nontrivial=nontriv, kind=("r" if inp["refl"] else "") + inp["op"] + ":" + kind)
+    c = Case(inp, coq, [o], NAMES, nontrivial=nontriv, kind=("r" if inp["refl"] else "") + inp["op"] + ":" + kind)
+    if isinstance(o, list) and o[1] == w and kind in ("same", "int"):
+        c.why = own_type_violation(inp, w, o[0])
+    return c
 
 
 def shrink(inp):
